@@ -210,8 +210,8 @@ impl Property for C07 {
     }
     fn cases(&self, tier: Tier) -> u64 {
         match tier {
-            Tier::Quick => 4000,
-            Tier::Thorough => 16 * 60000,
+            Tier::Quick => 32000,
+            Tier::Thorough => 32000 * 100,
         }
     }
     fn stream_lens(&self) -> [usize; 3] {
